@@ -10,6 +10,9 @@ package main
 
 import (
 	"errors"
+	"fmt"
+	"runtime"
+	"strings"
 	"sync"
 	"time"
 )
@@ -199,6 +202,19 @@ func (p *pipeConn) NWrites() int {
 	return len(p.writes)
 }
 
+// FailsLeft: scripted read failures not yet delivered (-1: failing for good)
+func (p *pipeConn) FailsLeft() int {
+	p.mu.Lock()
+	defer p.mu.Unlock()
+	if p.failing == nil {
+		return 0
+	}
+	if p.failN <= 0 {
+		return -1
+	}
+	return p.failN
+}
+
 func (p *pipeConn) BytesRead() int {
 	p.mu.Lock()
 	defer p.mu.Unlock()
@@ -246,6 +262,37 @@ func wirePacket(typ, status, channel, nr, window int, body []byte) []byte {
 	l := 8 + len(body)
 	b := []byte{byte(typ), byte(status), byte(l >> 8), byte(l), byte(channel >> 8), byte(channel), byte(nr), byte(window)}
 	return append(b, body...)
+}
+
+// parked reports whether some goroutine is blocked in the given state ("select", "chan send", ...) inside a
+// function whose name contains fn - read off the goroutine dump.  Used to know that the code under test has reached
+// the blocking point a scenario is about, instead of sleeping and hoping.
+func parked(state, fn string, recv interface{}) bool {
+	fn = fmt.Sprintf("%s(%p", fn, recv) // the receiver is the first argument word shown in the dump
+	buf := make([]byte, 1<<20)
+	n := runtime.Stack(buf, true)
+	for _, g := range strings.Split(string(buf[:n]), "\n\n") {
+		nl := strings.IndexByte(g, '\n')
+		if nl < 0 {
+			continue
+		}
+		if strings.Contains(g[:nl], "["+state) && strings.Contains(g[nl:], fn) {
+			return true
+		}
+	}
+	return false
+}
+
+// waitParked polls parked until it holds, at most d
+func waitParked(state, fn string, recv interface{}, d time.Duration) bool {
+	deadline := time.Now().Add(d)
+	for time.Now().Before(deadline) {
+		if parked(state, fn, recv) {
+			return true
+		}
+		time.Sleep(500 * time.Microsecond)
+	}
+	return false
 }
 
 // within runs f in a goroutine and reports whether it returned within d (a panic counts as returned, flagged).
